@@ -334,7 +334,7 @@ fn words_upto(alpha: &[u16], max: usize) -> Vec<Vec<u16>> {
 pub fn run(ctx: &'static Ctx) -> (&'static str, Value, Vec<&'static str>) {
     let t = ctx.tier.thorough();
     let configs: Vec<(Vec<u8>, usize)> = if t {
-        vec![(vec![1, 2, 3], 11), (vec![0, 1, 255], 9), (vec![1, 2, 3, 4, 5], 7)]
+        vec![(vec![1, 2, 3], 12), (vec![0, 1, 255], 10), (vec![1, 2, 3, 4, 5], 8)]
     } else {
         vec![(vec![1, 2, 3], 9), (vec![0, 1, 255], 7)]
     };
